@@ -12,7 +12,11 @@ type LLDP struct {
 }
 
 func (d *LLDP) Len() (n uint16) {
-	return 15
+	// each TLV: 2 bytes type and length; chassis and port id carry a subtype byte, the ttl 2 bytes
+	n += uint16(3 + len(d.Chassis.Data))
+	n += uint16(3 + len(d.Port.Data))
+	n += 4
+	return
 }
 
 func (d *LLDP) Read(b []byte) (n int, err error) {
